@@ -40,6 +40,84 @@ COMPONENTS = {
 }
 
 
+
+def sources_dedented(ctx: Ctx, rule: str) -> int:
+    """every `ast.parse(<text>)` of the analysis whose text comes from inspect.getsource (directly, or through a package function that returns it) goes
+    through textwrap.dedent / inspect.cleandoc on the way"""
+    from ..flow import flow_of
+    rep = ctx.report
+    prog = ctx.prog
+
+    def is_getsource(f: Func, n: ast.AST, depth: int = 0) -> bool:
+        if not isinstance(n, ast.Call):
+            return False
+        d = prog.dotted(f, n.func) or unparse(n.func)
+        if d in ("inspect.getsource",):
+            return True
+        if depth < 2:
+            fs, _ = prog.callees(f, n, ctx._types)
+            for g in fs:
+                if g.module.name.startswith("dds") and any(isinstance(r, ast.Return) and r.value is not None and any(is_getsource(g, x, depth + 1) for x in ast.walk(r.value)) for r in g.own_nodes()):
+                    return True
+        return False
+
+    def is_dedent(f: Func, n: ast.AST) -> bool:
+        return isinstance(n, ast.Call) and (prog.dotted(f, n.func) or unparse(n.func)) in ("textwrap.dedent", "inspect.cleandoc")
+
+    n = 0
+    for f in prog.funcs.values():
+        if f.module.name not in ("dds.introspect", "dds._introspect_indirect"):
+            continue
+        fl = None
+        for call in f.own_nodes():
+            if not (isinstance(call, ast.Call) and (prog.dotted(f, call.func) or unparse(call.func)) == "ast.parse" and call.args):
+                continue
+            fl = fl or flow_of(prog, f)
+            # expressions the text comes from: the argument itself and, through local names, their reaching definitions (two levels)
+            exprs = [call.args[0]]
+            seen = set()
+            raw: List[ast.AST] = []
+            covered = False
+            while exprs:
+                e = exprs.pop()
+                if id(e) in seen:
+                    continue
+                seen.add(id(e))
+                if is_dedent(f, e):
+                    covered = covered or any(is_getsource(f, x) for a in e.args for x in ast.walk(a)) or any(isinstance(a, ast.Name) for a in e.args)
+                    # what is inside a dedent is dedented: do not descend
+                    inner = [x for a in e.args for x in ast.walk(a) if is_getsource(f, x)]
+                    if not inner:
+                        for a in e.args:
+                            if isinstance(a, ast.Name):
+                                for d in fl.defs_of_use(a):
+                                    if d.value is not None and any(is_getsource(f, x) for x in ast.walk(d.value)):
+                                        inner.append(d.value)
+                    if inner:
+                        covered = True
+                    continue
+                if is_getsource(f, e):
+                    raw.append(e)
+                    continue
+                if isinstance(e, ast.Name):
+                    for d in fl.defs_of_use(e):
+                        if d.value is not None:
+                            exprs.append(d.value)
+                    continue
+                for ch in ast.iter_child_nodes(e):
+                    exprs.append(ch)
+            if not raw and not covered:
+                continue   # a text that does not come from inspect.getsource
+            n += 1
+            desc = f"{f.name}: the source text given to ast.parse is dedented"
+            if raw:
+                rep.bad(rule, f.qname, desc, f.loc(call), [f"{f.loc(raw[0])}: `{unparse(raw[0], 50)}` reaches `{unparse(call, 40)}` without textwrap.dedent",
+                        "`if True:\\n    def cond(x): return x * 2` and `def top(): return cond(2)`: dds.eval(top) raises IndentationError('unexpected indent'), plain execution returns 4"],
+                        stmt_key(call), what="the indented source of a definition nested in a block is parsed as it stands")
+            else:
+                rep.ok(rule, f.qname, desc, f.loc(call))
+    return n
+
 def run(ctx: Ctx) -> None:
     rep = ctx.report
     prog = ctx.prog
@@ -328,6 +406,11 @@ def run(ctx: Ctx) -> None:
                 f"{sorted(seen_sets)}", "`def outer(x): return dds.keep('/inner', inner, x) + 1` and `def top(): return dds.keep('/outer', outer, 1)`: `outer` is analysed with the "
                 "argument 1 (by the keep) and once more without arguments (by visit_Name): '/inner' gets two signatures and dds.eval(top) is refused with OVERLAPPING_PATH, where plain "
                 "execution returns 12"], "callee-analysed-twice", what="the function given to dds.keep is also analysed as a bare reference: its kept paths get two signatures")
+    # ---- R19: sources are dedented before they are parsed -----------------------------------------------------------------------
+    rep.rule("C01.R19", "the source text of a function / class (inspect.getsource, or the package's class-source helper) is dedented before ast.parse: a definition nested in a block "
+                        "(`if cond: def f(): ..`) has an indented source, and parsing it as it stands raises IndentationError where plain execution returns a value")
+    n19 = sources_dedented(ctx, "C01.R19")
+    rep.floor("C01.R19", n19, 4)
     from .c09 import previous_covers_loads
     rep.rule("C01.R17", "as C09.R16: the call-site context of a kept call covers the paths loaded before the call (their values can be its run-time arguments)")
     n17 = previous_covers_loads(ctx, "C01.R17")
